@@ -56,6 +56,11 @@ func ValidateSyncContribAndProof(ctx context.Context, signedContribAndProof *alt
 		return nil, GossipValidatorResult{IGNORE, err}
 	}
 
+	if epc.CurrentSyncCommittee == nil {
+		// e.g. a pre-altair chain entry: there is no sync committee to validate against (yet)
+		return nil, GossipValidatorResult{IGNORE, fmt.Errorf("no sync committee available at slot %d", contrib.Slot)}
+	}
+
 	// [REJECT] The aggregator's validator index is in the declared subcommittee of the current sync committee --
 	// i.e. state.validators[contribution_and_proof.aggregator_index].pubkey in get_sync_subcommittee_pubkeys(state, contribution.subcommittee_index).
 	pubs, indices, err := epc.CurrentSyncCommittee.Subcommittee(spec, uint64(contrib.SubcommitteeIndex))
